@@ -290,6 +290,9 @@ class PhasePredictor(QTable):
                     coeffs += f.readline().translate(d2e).split()
 
                 coeffs = np.array(coeffs, dtype=np.float64)
+                if len(coeffs) < 2:
+                    # NCOEFF = 1: the linear term is just 60 * F0.
+                    coeffs = np.append(coeffs, 0.0)
                 coeffs[0] += float("0." + r_frac)
                 coeffs[1] += float(f0) * 60
 
